@@ -177,12 +177,58 @@ def check_c13(tier, seed):
     # ---- grace-period arithmetic over a symbolic monotone Instant clock
     grace_part(ck, prog, pr, seed)
     ck.absorb(pr)
+    refid_part(ck, tier)
     fin(ck, pm, mir_wall)
     ck.cov['bounds'] = {'poller loop': 'one arbitrary iteration (the only loop-carried state is the keep-running flag: induction over iterations is immediate)',
                         'environment answers': 'all combinations of (clock read, chronyd answer, PHC configured, reference ids, PHC read, grace period, channel)',
                         'grace period': 'all instants (integer ns) of a non-decreasing monotonic clock that reads >= 5 s at daemon start',
                         'outside': 'ClockErrorBoundPoller::get_tracking\'s socket I/O (chrony_candm::blocking_query_uds is environment); the whole-process variant with a fake chronyd'}
     return ck.finish()
+
+
+def refid_part(ck, tier):
+    """the configured reference id (refid_to_u32, iterator/Vec/closure code): engine K, all strings of <= 5 ASCII bytes"""
+    from .kani_run import run_kani
+    h = 'refid_is_the_big_endian_packing_of_its_ascii_bytes'
+    r = run_kani(h)
+    ck.cov['kani'] = {h: {k: v for k, v in r.items() if k != 'out'}}
+    ck.cov['queries'] += 1; ck.cov['evaluations'] += 1; ck.cov['obligations'] += 1
+    ck.cov['solver_time_s'] = round(ck.cov['solver_time_s'] + r.get('solver_s', 0), 2)
+    ck.cov['samples'].append({'obligation': 'Kani: refid_to_u32(s) is the big-endian packing of the bytes of s for every ASCII string of at most 4 bytes, an error for 5 bytes (unwind 6, %s CBMC checks)' % r.get('checks'),
+                              'verdict': r['verdict'], 'solver_s': r.get('solver_s')})
+    if r['verdict'] == 'successful':
+        if r.get('covers') and r['covers'][0] < r['covers'][1]:
+            ck.inconclusive.append('Kani harness %s: a cover property is unsatisfiable (vacuity)' % h)
+        else:
+            ck.cov['discharged'] += 1; ck.cov['distinct_nontrivial'] += 1
+        return
+    if r['verdict'] != 'failed':
+        ck.inconclusive.append('Kani harness %s: %s %s' % (h, r['verdict'], r.get('out', '')[-300:]))
+        return
+    # counterexample: concrete playback -> native replay through the real function
+    r2 = run_kani(h, playback=True)
+    pb = r2.get('playback_bytes') or []
+    rp = common.Replay('debug')
+    tried = []
+    cands = []
+    if len(pb) >= 2 and len(pb[0]) == 8:
+        ln = int.from_bytes(bytes(pb[0]), 'little')
+        cands.append(bytes(pb[1][:min(ln, 5)]))
+    # also the obvious representatives of the input classes (cheap, native)
+    cands += [b'PHC0', b'phc0', b'Phc0', b'a', b'zz', b'GPS', b'gps', b'', b'abcde']
+    for s_ in cands:
+        if any(x >= 128 for x in s_):
+            continue
+        out = rp.ask('refid ' + s_.hex())
+        want = 'ok value=%d' % int.from_bytes(s_, 'big') if len(s_) <= 4 else 'ok refused'
+        tried.append((s_.decode('ascii', 'replace'), out))
+        if out != want:
+            rp.close()
+            ck.violation('configured-refid', 'refid_to_u32(%r) returns "%s", the reference id chronyd uses for that name is %s: the PHC error bound would be added for the wrong reports' % (
+                s_.decode('ascii', 'replace'), out, want), {'cmd': 'refid ' + s_.hex(), 'native': out, 'kani': r})
+            return
+    rp.close()
+    ck.inconclusive.append('Kani harness %s failed (%s) but no native input reproduced: %s' % (h, r.get('failed_checks'), tried[:4]))
 
 
 def grace_part(ck, prog, pr, seed):
@@ -329,9 +375,8 @@ def fin(ck, pm, mir_wall):
 
 
 # ------------------------------------------------------------------------------------------ C12
-def check_c12(tier, seed):
-    ck = Check('C12', tier, seed)
-    prog, mir_wall = load_dlib_program()
+def poller_order_half(ck, prog, seed):
+    """daemon half of C12 (also an interface fact of C01): the as-of reading precedes the query to chronyd"""
     pm = PollerModel(prog)
     S = pm.run()
     pr = Prover(seed); pr.add(pm.ex.side)
@@ -377,6 +422,13 @@ def check_c12(tier, seed):
                                    z3.And(ts.f[0] == pm.as_s, ts.f[1] == pm.as_n), confirm_order, lambda m: [])
     rpo.close()
     ck.absorb(pr, 'daemon: ')
+    return pm
+
+
+def check_c12(tier, seed):
+    ck = Check('C12', tier, seed)
+    prog, mir_wall = load_dlib_program()
+    pm = poller_order_half(ck, prog, seed)
     # client half: ClockErrorBound::now() reads REALTIME first, MONOTONIC second, and uses them in these roles
     from .client_now import load_shm_program, NowModel, ts_ns
     prog2, w2 = load_shm_program()
